@@ -202,6 +202,11 @@ private:
     //! Computing Sample Variances"
     double combine_variance(const Aggregate& other) const noexcept
     {
+        // check if either count is zero: avoids 0/0 = NaN for two empty ones
+        if (count_ == 0)
+            return other.nvar_;
+        if (other.count_ == 0)
+            return nvar_;
         double delta = mean_ - other.mean_;
         return nvar_ + other.nvar_ +
                (delta * delta) * (count_ * other.count_) /
